@@ -45,7 +45,7 @@ fn vres(r: &validation::ValidationResult) -> String {
 
 pub fn run_x(rest: &str) -> String {
     let t: Vec<&str> = rest.split_whitespace().collect();
-    let arg = |i: usize| -> Vec<u8> { unhex(t.get(i).copied().unwrap_or("-")) };
+    let arg = |i: usize| -> crate::Placed { crate::placed(t.get(i).copied().unwrap_or("-"), i) };
     match t[0] {
         "annexb_to_avcc" => hex(&h264::annexb_to_avcc(&arg(1))),
         "hevc_annexb_to_hvcc" => hex(&h265::hevc_annexb_to_hvcc(&arg(1))),
@@ -216,8 +216,8 @@ pub fn run_x(rest: &str) -> String {
         }
         "plain_ctors" => {
             // public constructors / accessors of the plain configuration records
-            let a = h264::AvcConfig::new(arg(1), arg(2));
-            let b2 = h265::HevcConfig::new(arg(2), arg(1), arg(2));
+            let a = h264::AvcConfig::new(arg(1).to_vec(), arg(2).to_vec());
+            let b2 = h265::HevcConfig::new(arg(2).to_vec(), arg(1).to_vec(), arg(2).to_vec());
             let v = validation::ValidationResult::invalid(vec!["e".to_string()]);
             let _ = format!("{:?} {:?} {:?}", a.clone(), b2.clone(), v.clone().with_message("m".into()));
             format!(
